@@ -1172,7 +1172,42 @@ pub fn check_c20(case: &Case, h: &History, alts: &[History]) -> Vec<Violation> {
                                 ));
                             }
                         }
-                        PromptCmd::Print(_) => {
+                        PromptCmd::Print(cmd) => {
+                            // answered: the printer wrote something for it (register and flag dumps
+                            // always; memory dumps when the range is a proper one)
+                            let proper = match &cmd {
+                                PrintCmd::Reg | PrintCmd::Flags => true,
+                                PrintCmd::Range(a, b) => a <= b && *b < MB as u64,
+                                PrintCmd::Len(a, n) => *a < MB as u64 && a + n < MB as u64,
+                                PrintCmd::DsLen(n) => (s.regs[R_DS] as u64) * 16 + n < MB as u64,
+                            };
+                            if proper {
+                                // events of this session after this line, up to the next line read
+                                let evs = &s.events[ps.from..ps.to];
+                                let mut seen_lines = 0usize;
+                                let mut answered = false;
+                                let mut closed = false;
+                                for e in evs {
+                                    match e {
+                                        Event::Line { who: Who::Prompt, .. } => {
+                                            seen_lines += 1;
+                                            if seen_lines > li + 1 {
+                                                closed = true;
+                                                break;
+                                            }
+                                        }
+                                        Event::Rec { origin: Origin::Printer, .. } if seen_lines == li + 1 => answered = true,
+                                        _ => {}
+                                    }
+                                }
+                                let _ = closed;
+                                if !answered && h.panic().is_none() {
+                                    v.push(Violation::new(
+                                        "C20:print_not_answered",
+                                        format!("print command {:?} at the prompt of instruction #{} got no answer from the printer", t.trim(), s.idx),
+                                    ));
+                                }
+                            }
                             // answered without advancing: another prompt read (or the end of input) follows
                             // before any instruction runs
                             if last && (s.followed || matches!(h.ended(), Some(Event::Return))) {
